@@ -32,6 +32,8 @@ structure Obs where
   flags : List Bool := [false]     -- per stack frame (head = top): one of the frame's OWN non-empty methods ran
   empties : List String := []      -- popped frames that never ran an own method although their node had rule children
   vunsup : List Nat := []          -- rules reported "not supported" by a method of the ACTIVE visitor (not BaseVisitor's)
+  mis : Nat := 0                   -- CurrentPart() calls that returned a part already closed by a WITH
+  cnts : List Cnt := [{ len := 0, idx := 0 }]   -- per stack frame (head = top): Parts / partIdx counters of that visitor instance
 
 def ownMethod (tab : List (List (Nat × Bool × Bool × Bool))) (V r : Nat) : Bool :=
   (tab.getD r []).any (fun m => m.1 == V && !m.2.2.1)
@@ -41,6 +43,23 @@ def setFlag : List Bool → Nat → List Bool
   | _ :: fs, 0 => true :: fs
   | f :: fs, n + 1 => f :: setFlag fs n
 
+def partsTypes : List Nat := (PT.map (·.1)).eraseDups
+
+/-- what the Go code does: only `CurrentPart()` on an EMPTY slice panics; an access while len ≠ idx + 1 silently returns
+the previous, already closed part (counted in `mis`) -/
+def runOpsGo : Cnt × Nat → List Nat → Except String (Cnt × Nat)
+  | s, [] => .ok s
+  | (c, mis), op :: ops =>
+    if op == 1 && c.len != 0 && c.len != c.idx + 1 then runOpsGo (c, mis + 1) ops
+    else match runOp c op with
+      | .ok c' => runOpsGo (c', mis) ops
+      | .error e => .error e
+
+def applyAt (cs : List Cnt) (i : Nat) (ops : List Nat) : Except String (List Cnt × Nat) :=
+  match cs.drop i with
+  | c :: rest => (runOpsGo (c, 0) ops).map (fun p => (cs.take i ++ p.1 :: rest, p.2))
+  | [] => .ok (cs, 0)
+
 def hex16 (n : UInt64) : String :=
   let ds := (Nat.toDigits 16 n.toNat)
   String.ofList (List.replicate (16 - ds.length) '0' ++ ds)
@@ -49,16 +68,22 @@ mutual
 partial def twalk (T : Tables) : Tree → St × Obs → Except String (St × Obs)
   | .node r kids, (st, o) =>
     -- probe: stack snapshot before EnterEveryRule touches it (bottom … top)
-    let snap := toString r ++ ":" ++ String.join (st.stack.reverse.map (fun f => typeName f.1 ++ "/" ++ toString f.2 ++ ",")) ++ ";"
+    let snap := toString r ++ ":" ++ String.join ((st.stack.zip o.cnts).reverse.map (fun p =>
+      typeName p.1.1 ++ "/" ++ toString p.1.2 ++ (if partsTypes.contains p.1.1 then "#" ++ toString p.2.len ++ "/" ++ toString p.2.idx else "") ++ ",")) ++ ";"
     let o := { o with hash := fnvAdd o.hash snap, events := o.events + 1, max := Nat.max o.max st.stack.length }
     let topV := (st.stack.headD (0, 0)).1
     let o := if ownMethod T.enterM topV r then { o with flags := setFlag o.flags 0 } else o
     let o := if T.unsupM.contains (topV, r) then { o with vunsup := o.vunsup ++ [r] } else o
+    -- the Enter method's bookkeeping on the active instance's Parts / partIdx
+    match applyAt o.cnts 0 (PT.ops topV r true) with
+    | .error e => .error e
+    | .ok (cs, m) =>
+    let o := { o with cnts := cs, mis := o.mis + m }
     match T.enterRule r kids st with
     | .error e => .error e
     | .ok st1 =>
       let pushed := st1.stack.length > st.stack.length
-      let o := if pushed then { o with flags := false :: o.flags } else o
+      let o := if pushed then { o with flags := false :: o.flags, cnts := { len := 0, idx := 0 } :: o.cnts } else o
       match twalkL T kids (st1, o) with
       | .error e => .error e
       | .ok (st2, o) =>
@@ -68,9 +93,14 @@ partial def twalk (T : Tables) : Tree → St × Obs → Except String (St × Obs
           | [] => 0
         let curV := ((st2.stack.drop idx).headD (0, 0)).1
         let o := if ownMethod T.exitM curV r then { o with flags := setFlag o.flags idx } else o
+        match applyAt o.cnts idx (PT.ops curV r false) with
+        | .error e => .error e
+        | .ok (cs, m) =>
+        let o := { o with cnts := cs, mis := o.mis + m }
         match T.exitRule r kids st2 with
         | .error e => .error e
         | .ok st3 =>
+          let o := if st3.stack.length < st2.stack.length then { o with cnts := o.cnts.drop 1 } else o
           if st3.stack.length < st2.stack.length then
             let touched := o.flags.headD true
             let poppedV := (st2.stack.headD (0, 0)).1
@@ -132,6 +162,7 @@ def step (_ : Unit) (ts : List String) : Unit × String :=
         let TP : Tables := { T with filters := [0] }   -- the probe embeds BaseVisitor: inert
         let tr := twalk TP t (TP.init, {})
         let vuns := match tr with | .ok (_, o) => o.vunsup.map ruleName | .error _ => []
+        let mis := match tr with | .ok (_, o) => o.mis | .error _ => 0
         let nunsup := rules.flatMap (fun r => List.replicate (E.unsupErrCount r) (ruleName r)) ++ vuns
         let dunsup := rules.flatMap (fun r => List.replicate (ED.unsupErrCount r) (ruleName r)) ++ vuns
         let dfilt := (rules.map ED.filterErrCount).foldl (· + ·) 0
@@ -140,8 +171,12 @@ def step (_ : Unit) (ts : List String) : Unit × String :=
         let rd := TD.run t
         let nNonNil := T.modelNonNil t
         let dNonNil := TD.modelNonNil t
-        let npanic := match rn with | .error _ => true | .ok _ => false
-        let dpanic := match rd with | .error _ => true | .ok _ => false
+        let ppanic := match tr with | .error _ => true | .ok _ => false   -- CurrentPart() on an empty Parts slice
+        let npanic := (match rn with | .error _ => true | .ok _ => false) || ppanic
+        let dpanic := (match rd with | .error _ => true | .ok _ => false) || ppanic
+        -- the denotational counter machine (the proven one) must agree with the stack-aligned one
+        let pden := match T.pwalk PT T.root t { len := 0, idx := 0 } with | .error _ => true | .ok _ => false
+        let ppanic' := ppanic || mis > 0
         let nerrs := nsyn + nother + nunsup.length
         let derrs := dsyn + dother + dunsup.length + dfilt
         let (trace, empties, why) := match tr with
@@ -150,7 +185,7 @@ def step (_ : Unit) (ts : List String) : Unit × String :=
         let steps := match rn with | .ok st => st.steps | .error _ => 0
         let stepsOk := steps ≤ 4 * size t
         let nn (b : Bool) : String := if b then "0" else "1"
-        ((), s!"n={cls npanic nerrs nNonNil}/{nn nNonNil} d={cls dpanic derrs dNonNil}/{nn dNonNil} nunsup=[{sortedNames nunsup}] dfilt={dfilt} dunsup=[{sortedNames dunsup}] trace={trace} | wf={if t.wf refs then 1 else 0} conforms={if t.conforms must then 1 else 0} root={t.rootRule.getD 999} qkind={qkind t} reaches={if T.reaches t then 1 else 0} empty=[{",".intercalate empties.eraseDups}] steps_ok={if stepsOk then 1 else 0} size={size t} why={why.replace " " "_"}")
+        ((), s!"n={cls npanic nerrs nNonNil}/{nn nNonNil} d={cls dpanic derrs dNonNil}/{nn dNonNil} nunsup=[{sortedNames nunsup}] dfilt={dfilt} dunsup=[{sortedNames dunsup}] trace={trace} | wf={if t.wf refs then 1 else 0} conforms={if t.conforms must then 1 else 0} root={t.rootRule.getD 999} qkind={qkind t} reaches={if T.reaches t then 1 else 0} empty=[{",".intercalate empties.eraseDups}] steps_ok={if stepsOk then 1 else 0} misattached={mis} parts_agree={if pden == ppanic' then 1 else 0} size={size t} why={why.replace " " "_"}")
       | none => ((), "bad-op")
     | _ => ((), "bad-op")
   | _ => ((), "bad-op")
